@@ -536,11 +536,57 @@ def expected_quantity(kind, arr, dtype, quantity, form, box=None):
     if q == 'isna':
         return [e is None for e in elems]
 
+    def rings_py(e):
+        d = e.data.as_py() if kind != 'point' else [float(x) for x in e.flat_values]
+        if T.NEST[kind] <= 1:
+            flat_lists = [d]
+        elif T.NEST[kind] == 2:
+            flat_lists = d
+        else:
+            flat_lists = [r for part in d for r in part]
+        return [[(float(r[i]), float(r[i + 1])) for i in range(0, len(r), 2)] for r in flat_lists]
+
+    def oracle(e):
+        """independent exact/plain-python value of the element (None when no independent oracle applies)"""
+        import math
+        from . import geom as G
+        rs = rings_py(e)
+        if q == 'length':
+            if kind in ('point', 'multipoint'):
+                return 0.0
+            return sum(math.hypot(r[i + 1][0] - r[i][0], r[i + 1][1] - r[i][1]) for r in rs for i in range(len(r) - 1)
+                       if all(math.isfinite(c) for c in r[i] + r[i + 1]))
+        if q == 'area':
+            if kind not in ('polygon', 'multipolygon'):
+                return 0.0
+            if any(not math.isfinite(c) for r in rs for v in r for c in v) or not G.rings_closed_x(rs):
+                return None
+            return float(sum((G.signed_area2_x(r) / 2 for r in rs if len(r) >= 3), G.F(0)))
+        if q == 'intersects_bounds':
+            if any(not math.isfinite(c) for r in rs for v in r for c in v):
+                return None
+            nb = G.norm_box(box)
+            if kind in ('point', 'multipoint'):
+                return any(nb[0] <= v[0] <= nb[2] and nb[1] <= v[1] <= nb[3] for r in rs for v in r)
+            if nb[0] == nb[2] or nb[1] == nb[3]:
+                return None              # degenerate box: outside the guarantee for line and polygon kinds
+            if kind in ('line', 'ring', 'multiline'):
+                return any(G.line_box_x(r, nb) for r in rs)
+            parts = [rs] if kind == 'polygon' else [[[(float(r[i]), float(r[i + 1])) for i in range(0, len(r), 2)] for r in part] for part in e.data.as_py()]
+            if not all(G.rings_closed_x(p) for p in parts):
+                return None
+            res = [G.polygon_box_x(p, nb) for p in parts]
+            return any(a for a, _ in res) if all(u for _, u in res) else None
+        return None
+
     def one(j):
         e = elems[j]
         if e is None:
             return False if q == 'intersects_bounds' else float('nan')
-        f = fresh_single(kind, e, dtype)
+        o = oracle(e)
+        if o is not None:
+            return o
+        f = fresh_single(kind, e, dtype)      # no independent oracle (e.g. ambiguous winding): the canonical real computation
         if q == 'intersects_bounds':
             return bool(f.intersects_bounds(box)[0])
         return float(getattr(f, q)[0])
